@@ -19,6 +19,10 @@ import z3
 sys.setrecursionlimit(200000)
 
 
+
+# block coverage of crate-local code (only with VERIF_COV=<dir>; tools/covmap.py): instance name -> executed block indices
+COV = {} if os.environ.get('VERIF_COV') else None
+
 class Unsupported(Exception):
     pass
 
@@ -1539,8 +1543,11 @@ class Exec:
         blocks = body['blocks']
         bb = 0
         flocals = f['locals']
+        cov = COV.setdefault(f['name'], set()) if (COV is not None and 'block_lines' in f) else None
         while True:
             blk = blocks[bb]
+            if cov is not None:
+                cov.add(bb)
             for st in blk['statements']:
                 k = st['kind']
                 if isinstance(k, dict):
